@@ -651,8 +651,13 @@ func runParent(p *Property, tier string) int {
 		if xb, err := os.ReadFile(xp); err == nil {
 			var xv interface{}
 			if json.Unmarshal(xb, &xv) == nil {
-				cov["transcripts"] = xv
+				cov["extra"] = xv
 				if m, ok := xv.(map[string]interface{}); ok {
+					if rp, ok := m["race_pass"].(map[string]interface{}); ok {
+						if n, ok := rp["data_races_reported"].(float64); ok && n > 0 {
+							viol = append(viol, Failure{Layer: "race-pass", Key: "data-race", Detail: "see VIOLATION line printed by scripts/check.sh"})
+						}
+					}
 					if id, ok := m["identical"].(bool); ok && !id {
 						viol = append(viol, Failure{Layer: "transcripts", Key: "transcript-mismatch", Detail: "see VIOLATION line printed by scripts/transcripts.sh"})
 					}
